@@ -1,4 +1,4 @@
 SPECIFICATION Spec
-CONSTANTS MaxDepth = 7  MaxBad = 2  MaxDec = 1
+CONSTANTS MaxDepth = 7  MaxBad = 1  MaxDec = 1
 INVARIANTS OnlyPermittedOutcomes EmitPlan
 CHECK_DEADLOCK FALSE
